@@ -262,6 +262,9 @@ func NewParametersFromLiteral(residualParameters ckks.Parameters, btpLit Paramet
 	// Retrieve the number of primes #Pi of the bootstrapping circuit
 	// and adds them to the list of bit-size
 	LogP := btpLit.GetLogP(C2SParams.LevelQ + 1)
+	if len(LogP) == 0 {
+		return Parameters{}, fmt.Errorf("cannot NewParametersFromLiteral: LogP cannot be empty: the bootstrapping keys require at least one auxiliary prime")
+	}
 	for _, logpi := range LogP {
 		primesBitLenNew[logpi]++
 	}
